@@ -40,7 +40,7 @@ def run(rep, tier, work):
         rep.violation("fit trace rejected (%s) for case [%s] at %s" % (rj["name"], rj["execution"][0].get("desc"), rj["event"]), payload=rj)
     nslots = len([x for x in recs if x["e"] == "Slot"])
     deep = len([x for x in recs if x["e"] == "Slot" and x["rows"] >= 3])
-    if nslots < 50:
+    if not rep.violations and (nslots < 50):
         raise CheckError("fit driver produced only %d slots" % nslots)
     rep.add(traces_validated_against_impl=accepted, fit_slots=nslots, fit_slots_with_3plus_rounds=deep)
     rep.sample({"fit": [x for x in recs if x["e"] in ("Reset", "Fit", "Slot", "Final")][:4]})
